@@ -316,18 +316,19 @@ m("C13", "proof",
   "the transfer completes in that call (C13_expiry_success); otherwise counter+1 / timer restart below the "
   "limit and Check-limit-reached exactly at counter+1 >= limit, ending incomplete (C13_expiry_retry, "
   "C13_expiry_limit, C13_limit_reports_incomplete); the sender's check timer (C13_source_closure_timer). "
-  "WHOLE RUNS of the receiver model (unacknowledged, no closure), for every file, segment length, position of "
+  "WHOLE RUNS of the receiver model (unacknowledged, closure requested or not), for every file, segment length, position of "
   "the late tile (any but the last), configuration, CRC type, check limit and expiry times: "
   "C13_late_data_completes — Metadata, all tiles but one, EOF (no completion; timer started, counter 0), any "
   "number of expiries below the limit (each only counts: C13_expiries_below_limit, induction over the expiry "
   "times), the late tile, the next expiry: complete, file byte-identical, exactly one successful "
   "Transaction-Finished, idle, no Check limit fault; C13_never_arrives_limit — the first limit-1 expiries only "
-  "count, the limit-th declares Check limit reached, cancelled and reported Data incomplete, idle. Concrete "
+  "count, the limit-th declares Check limit reached, cancelled and reported Data incomplete, idle; with closure "
+  "exactly one Finished PDU carrying the reported values is queued in the completing call. Concrete "
   "instances show the hypotheses are satisfiable.",
   "Lean 4 theorems (one-step contracts, whole calls, induction over expiry times, whole-run composition) + "
   "scenario enumeration", "§6 C13",
-  ["whole-run theorems: one late File Data PDU, no closure, the hole's checksum differs from the announced one; "
-   "several late PDUs, closure and the sender side are one-step contracts + scenario exploration"])
+  ["whole-run theorems: one late File Data PDU, the hole's checksum differs from the announced one; "
+   "several late PDUs and the sender side are one-step contracts + scenario exploration"])
 m("C14", "proof",
   "destination, source and end-to-end sessions with random fault-handler tables (cancel/ignore/abandon/"
   "suspend for each declarable condition), sethandler ops, faulty links, rejected writes, cancel requests",
